@@ -25,7 +25,14 @@ func TestMain(m *testing.M) {
 			"peer's key over (that challenge, this instance's public key, the request's Host). Client side: the real ClientPeerIDAuth talks to a "+
 			"harness server (RoundTripper) that answers each request honestly or with a generated deviation (wrong signer, wrong / stale / foreign "+
 			"challenge, wrong client key, wrong / omitted hostname, mutated or replayed signature, dropped / duplicated / swapped public-key, "+
-			"refused client-initiated flow, rejected token, swapped header names, status codes), over 1-3 calls with token reuse and expiry; a "+
+			"refused client-initiated flow, rejected token, swapped header names, status codes), over 1-4 calls (sessions of the same client key, two "+
+			"hostnames) with token reuse and expiry. On top of that the finished WWW-Authenticate / Authentication-Info value gets 0-2 parameter-level "+
+			"operators - add / drop / duplicate / swap-the-value of any of challenge-server, challenge-client, opaque, public-key, sig, bearer, hostname, "+
+			"client-public-key (also the ones an honest server never sends), front or back, the donor value taken from an earlier session of this "+
+			"client (either direction), reflected from this session's request, or fresh - and, for half of the signatures made for another context "+
+			"(stale / earlier-session / altered / empty challenge, other client key, other hostname, replayed earlier signature) and 1/8 of the "+
+			"ordinary ones, the impostor's replay shape: the header also states, as parameters, the challenge-server / client-public-key / hostname "+
+			"values the signature was really made for. The oracle's tables are filled from the final header on the wire. A "+
 			"returned server ID must own a signature sent in that call over (a challenge the client sent in that call, the client's key, the "+
 			"hostname), or be the ID proven when the cached token was obtained. "+
 			"NON-TRIVIAL = at least one operator / deviation / cross-target / expiry shift applied; DISTINCT = distinct (base step, operator+parameter "+
